@@ -146,6 +146,7 @@ structure Sound (cfg : Cfg) : Prop where
   refundChan : cfg.refundChan = .src
   refundSeq : cfg.refundSeq = true
   deleteReports : cfg.deleteReports = true
+  errPropagates : cfg.refundErrPropagates = true
 
 theorem inv_send (c : Ctl) (l : Ch) (p : Pkt) (key : Option (Ch × Seq)) (h : Inv c)
     (hkey : key = none ∨ key = some (l, nextSeq c l))
@@ -407,23 +408,66 @@ theorem inv_refund (cfg : Cfg) (c : Ctl) (k : Ch × Seq) (p : Pkt) (h : Inv c) (
 
 /-! ## the whole transition preserves the invariant -/
 
+/-- a processed refund (hook wired): the transfer application's refund, then the hook — or, when the hook's error is
+not handed up to IBC core, only the former with the record left in place -/
+theorem refundState_cases (cfg : Cfg) (s s' : State) (l : Ch) (seq : Seq) (p : Pkt)
+    (hr : refundState cfg s l seq p true = some s') :
+    ∃ b1, refundApp s.bal l p = some b1 ∧
+      ((∃ b2, refundHook cfg s.ctl.vmeta b1 l p (refundForm cfg s.ctl (l, seq) p) = some b2 ∧
+          s' = { bal := b2, ctl := refundCtl cfg s.ctl (l, seq) p }) ∨
+       (cfg.refundErrPropagates = false ∧ refundHook cfg s.ctl.vmeta b1 l p (refundForm cfg s.ctl (l, seq) p) = none ∧
+          s' = { bal := b1, ctl := { s.ctl with commits := dropCommit s.ctl.commits (l, seq),
+                                                refundLog := ⟨l, seq, p.sender, p.tok, p.amt, false⟩ :: s.ctl.refundLog } })) := by
+  unfold refundState at hr
+  cases ha : refundApp s.bal l p with
+  | none => simp [ha] at hr
+  | some b1 =>
+    refine ⟨b1, rfl, ?_⟩
+    simp only [ha, ↓reduceIte] at hr
+    cases hh : refundHook cfg s.ctl.vmeta b1 l p (refundForm cfg s.ctl (l, seq) p) with
+    | none =>
+      simp only [hh] at hr
+      cases hp : cfg.refundErrPropagates with
+      | true => simp [hp] at hr
+      | false =>
+        simp only [hp, Bool.false_eq_true, ↓reduceIte, Option.some.injEq] at hr
+        exact Or.inr ⟨rfl, rfl, hr.symm⟩
+    | some b2 =>
+      simp only [hh, Option.some.injEq] at hr
+      exact Or.inl ⟨b2, rfl, hr.symm⟩
+
+theorem refundState_true (cfg : Cfg) (hp : cfg.refundErrPropagates = true) (s s' : State) (l : Ch) (seq : Seq) (p : Pkt)
+    (hr : refundState cfg s l seq p true = some s') :
+    ∃ b1 b2, refundApp s.bal l p = some b1 ∧
+      refundHook cfg s.ctl.vmeta b1 l p (refundForm cfg s.ctl (l, seq) p) = some b2 ∧
+      s' = { bal := b2, ctl := refundCtl cfg s.ctl (l, seq) p } := by
+  obtain ⟨b1, ha, h | h⟩ := refundState_cases cfg s s' l seq p hr
+  · obtain ⟨b2, hh, hs'⟩ := h; exact ⟨b1, b2, ha, hh, hs'⟩
+  · rw [hp] at h; cases h.1
+
+theorem refundState_false (cfg : Cfg) (s s' : State) (l : Ch) (seq : Seq) (p : Pkt)
+    (hr : refundState cfg s l seq p false = some s') :
+    ∃ b1, refundApp s.bal l p = some b1 ∧
+      s' = { bal := b1, ctl := { s.ctl with commits := dropCommit s.ctl.commits (l, seq) } } := by
+  unfold refundState at hr
+  cases ha : refundApp s.bal l p with
+  | none => simp [ha] at hr
+  | some b1 =>
+    simp only [ha, Bool.false_eq_true, ↓reduceIte, Option.some.injEq] at hr
+    exact ⟨b1, rfl, hr.symm⟩
+
 theorem refundState_inv (cfg : Cfg) (hs : Sound cfg) (s s' : State) (l : Ch) (seq : Seq) (p : Pkt) (refunds : Bool)
     (h : Inv s.ctl) (hk : ((l, seq), p) ∈ s.ctl.commits) (hr : refundState cfg s l seq p refunds = some s') :
     Inv s'.ctl := by
-  unfold refundState at hr
-  split at hr
-  · cases hr
-  · cases refunds with
-    | true =>
-      simp only [↓reduceIte] at hr
-      split at hr
-      · cases hr
-      · cases hr
-        exact inv_refund cfg s.ctl _ p h hk hs.refundSees hs.refundConverts hs.refundChan hs.refundSeq hs.deleteReports
-    | false =>
-      simp only [Bool.false_eq_true, ↓reduceIte, Option.some.injEq] at hr
-      subst hr
-      exact inv_drop s.ctl _ h
+  cases refunds with
+  | true =>
+    obtain ⟨_, _, _, _, hs'⟩ := refundState_true cfg hs.errPropagates s s' l seq p hr
+    subst hs'
+    exact inv_refund cfg s.ctl _ p h hk hs.refundSees hs.refundConverts hs.refundChan hs.refundSeq hs.deleteReports
+  | false =>
+    obtain ⟨_, _, hs'⟩ := refundState_false cfg s s' l seq p hr
+    subst hs'
+    exact inv_drop s.ctl _ h
 
 theorem settleState_inv (cfg : Cfg) (hs : Sound cfg) (s s' : State) (l : Ch) (seq : Seq) (p : Pkt) (mode : Mode)
     (h : Inv s.ctl) (hk : ((l, seq), p) ∈ s.ctl.commits) (hr : settleState cfg s l seq p mode = some s') :
@@ -465,6 +509,8 @@ theorem step_inv (cfg : Cfg) (hs : Sound cfg) (s : State) (op : Op) (h : Inv s.c
   | chan l r => exact ⟨h.fC, h.fR, h.fA, h.fE, h.fK, h.rNC, h.aNC, h.nodup, h.rNA, h.eData, h.eRel, h.rE⟩
   | vmeta l => exact ⟨h.fC, h.fR, h.fA, h.fE, h.fK, h.rNC, h.aNC, h.nodup, h.rNA, h.eData, h.eRel, h.rE⟩
   | migrate => exact ⟨h.fC, h.fR, h.fA, h.fE, h.fK, h.rNC, h.aNC, h.nodup, h.rNA, h.eData, h.eRel, h.rE⟩
+  | toggle t l => simp only [stepWith]; split <;> exact h
+  | pause => exact h
   | seqset l n =>
     simp only [stepWith]
     split
@@ -518,18 +564,15 @@ structure Removes (cfg : Cfg) : Prop where
   refundChan : cfg.refundChan = .src
   refundSeq : cfg.refundSeq = true
   deleteReports : cfg.deleteReports = true
+  errPropagates : cfg.refundErrPropagates = true
 
 theorem refundState_rel (cfg : Cfg) (hsees : cfg.refundSees = true) (hch : cfg.refundChan = .src)
-    (hseq : cfg.refundSeq = true) (hrep : cfg.deleteReports = true) (s s' : State) (l : Ch) (seq : Seq) (p : Pkt)
+    (hseq : cfg.refundSeq = true) (hrep : cfg.deleteReports = true) (hp : cfg.refundErrPropagates = true)
+    (s s' : State) (l : Ch) (seq : Seq) (p : Pkt)
     (hr : refundState cfg s l seq p true = some s') : s'.ctl.rel = dropRel s.ctl.rel (l, seq) := by
-  unfold refundState at hr
-  split at hr
-  · cases hr
-  · simp only [↓reduceIte] at hr
-    split at hr
-    · cases hr
-    · cases hr
-      exact refund_rel cfg hsees hch hseq hrep s.ctl _ p
+  obtain ⟨_, _, _, _, hs'⟩ := refundState_true cfg hp s s' l seq p hr
+  subst hs'
+  exact refund_rel cfg hsees hch hseq hrep s.ctl _ p
 
 /-- a processed settlement leaves the relation store as it was, minus the record of exactly that (channel, sequence) -/
 theorem settleState_rel (cfg : Cfg) (hR : Removes cfg) (s s' : State) (l : Ch) (seq : Seq) (p : Pkt) (mode : Mode)
@@ -541,10 +584,10 @@ theorem settleState_rel (cfg : Cfg) (hR : Removes cfg) (s s' : State) (l : Ch) (
     exact ackOk_rel cfg hR.ackOkRemoves hR.ackOkChan hR.ackOkSeq s.ctl _ p
   | ackErr =>
     simp only [settleState, hR.ackErrRefunds] at hr
-    exact refundState_rel cfg hR.refundSees hR.refundChan hR.refundSeq hR.deleteReports s s' l seq p hr
+    exact refundState_rel cfg hR.refundSees hR.refundChan hR.refundSeq hR.deleteReports hR.errPropagates s s' l seq p hr
   | timeout =>
     simp only [settleState, hR.timeoutRefunds] at hr
-    exact refundState_rel cfg hR.refundSees hR.refundChan hR.refundSeq hR.deleteReports s s' l seq p hr
+    exact refundState_rel cfg hR.refundSees hR.refundChan hR.refundSeq hR.deleteReports hR.errPropagates s s' l seq p hr
 
 theorem settle_frame (cfg : Cfg) (hR : Removes cfg) (s : State) (l : Ch) (seq : Seq) (mode : Mode) :
     (stepWith cfg s (.settle l seq mode)).2.isDone →
@@ -566,8 +609,8 @@ theorem settle_removes (cfg : Cfg) (hR : Removes cfg) (s : State) (l : Ch) (seq 
 
 theorem settle_removes_failure (cfg : Cfg) (hE : cfg.ackErrRefunds = true)
     (hT : cfg.timeoutRefunds = true) (hS : cfg.refundSees = true) (hch : cfg.refundChan = .src)
-    (hseq : cfg.refundSeq = true) (hrep : cfg.deleteReports = true) (s : State) (l : Ch) (seq : Seq) (mode : Mode)
-    (hm : mode ≠ .ackOk) :
+    (hseq : cfg.refundSeq = true) (hrep : cfg.deleteReports = true) (hp : cfg.refundErrPropagates = true)
+    (s : State) (l : Ch) (seq : Seq) (mode : Mode) (hm : mode ≠ .ackOk) :
     (stepWith cfg s (.settle l seq mode)).2.isDone →
       (stepWith cfg s (.settle l seq mode)).1.ctl.rel = dropRel s.ctl.rel (l, seq) := by
   simp only [stepWith, settle]
@@ -583,10 +626,10 @@ theorem settle_removes_failure (cfg : Cfg) (hE : cfg.ackErrRefunds = true)
       | ackOk => exact absurd rfl hm
       | ackErr =>
         simp only [settleState, hE] at hst
-        exact refundState_rel cfg hS hch hseq hrep s s' l seq p hst
+        exact refundState_rel cfg hS hch hseq hrep hp s s' l seq p hst
       | timeout =>
         simp only [settleState, hT] at hst
-        exact refundState_rel cfg hS hch hseq hrep s s' l seq p hst
+        exact refundState_rel cfg hS hch hseq hrep hp s s' l seq p hst
 
 /-- whenever the success branch deletes under another prefix than the one the record is written under, a success ack
 leaves the relation store exactly as it was -/
@@ -618,18 +661,14 @@ theorem lookup_dropCommit (cs : List ((Ch × Seq) × Pkt)) (k : Ch × Seq) : loo
 
 theorem refundState_commits (cfg : Cfg) (s s' : State) (l : Ch) (seq : Seq) (p : Pkt) (b : Bool)
     (hr : refundState cfg s l seq p b = some s') : s'.ctl.commits = dropCommit s.ctl.commits (l, seq) := by
-  unfold refundState at hr
-  split at hr
-  · cases hr
-  · cases b with
-    | true =>
-      simp only [↓reduceIte] at hr
-      split at hr
-      · cases hr
-      · cases hr; rfl
-    | false =>
-      simp only [Bool.false_eq_true, ↓reduceIte, Option.some.injEq] at hr
-      subst hr; rfl
+  cases b with
+  | true =>
+    obtain ⟨_, _, h | h⟩ := refundState_cases cfg s s' l seq p hr
+    · obtain ⟨_, _, hs'⟩ := h; subst hs'; rfl
+    · obtain ⟨_, _, hs'⟩ := h; subst hs'; rfl
+  | false =>
+    obtain ⟨_, _, hs'⟩ := refundState_false cfg s s' l seq p hr
+    subst hs'; rfl
 
 theorem settleState_commits (cfg : Cfg) (s s' : State) (l : Ch) (seq : Seq) (p : Pkt) (mode : Mode)
     (hr : settleState cfg s l seq p mode = some s') : s'.ctl.commits = dropCommit s.ctl.commits (l, seq) := by
@@ -668,7 +707,8 @@ theorem settle_twice (cfg : Cfg) (s : State) (l : Ch) (seq : Seq) (mode mode' : 
 /-- transfer application re-mints the voucher, `IBCCoinToBaseCoin` turns it into the base coin (alias resolved),
 `IbcRefund` converts the base coin to ERC-20 for the sender -/
 theorem refund_A_bal (cfg : Cfg) (vmeta : List Ch) (b : Bal) (l : Ch) (p : Pkt) (hA : p.tok = .A)
-    (hres : resolve cfg vmeta false (.vA l) = .base) (hTo : cfg.refundToSender = true) :
+    (hres : resolve cfg vmeta false (.vA l) = .base) (hTo : cfg.refundToSender = true)
+    (hon : b.paused = false ∧ b.off.contains ETok.base = false) :
     ∃ b1 b', refundApp b l p = some b1 ∧ refundHook cfg vmeta b1 l p true = some b' ∧
       sget b'.erc (p.sender, ETok.base) = sget b.erc (p.sender, ETok.base) + p.amt ∧
       (∀ k, k ≠ (p.sender, ETok.base) → sget b'.erc k = sget b.erc k) ∧
@@ -684,7 +724,10 @@ theorem refund_A_bal (cfg : Cfg) (vmeta : List Ch) (b : Bal) (l : Ch) (p : Pkt) 
                 bank := sadd (sadd (ssub (b.mint p.sender (.vA l) p.amt).bank (p.sender, .vA l) p.amt)
                   (transferMod, .vA l) p.amt) (p.sender, .base) p.amt }, .base) := by
     simp only [toBaseCoin, Denom.isIbc, Bool.not_true, Bool.false_eq_true, ↓reduceIte, hlt]
-  simp only [refundHook, hA, bankDenom, hres, h2, ↓reduceIte, hTo, convertCoin, pairOf]
+  have hp1 : (b.mint p.sender (.vA l) p.amt).paused = false := hon.1
+  have hp2 : (b.mint p.sender (.vA l) p.amt).off.contains ETok.base = false := hon.2
+  simp only [refundHook, hA, bankDenom, hres, h2, ↓reduceIte, hTo, convertCoin, pairOf, hp1, hp2, Bool.or_self,
+    Bool.false_eq_true]
   have hlt2 : ¬ sget (sadd (sadd (ssub (b.mint p.sender (.vA l) p.amt).bank (p.sender, .vA l) p.amt)
       (transferMod, .vA l) p.amt) (p.sender, .base) p.amt) (p.sender, Denom.base) < p.amt := by
     simp [get_add]
@@ -709,7 +752,8 @@ theorem settle_refund_credits (cfg : Cfg) (hs : Sound cfg) (hE : cfg.ackErrRefun
     (hTo : cfg.refundToSender = true)
     (s : State) (e : SentRec) (mode : Mode) (hm : mode ≠ .ackOk) (h : Inv s.ctl)
     (he : e ∈ s.ctl.evmSent) (hB : e.tok = .A) (hc : ∃ x ∈ s.ctl.commits, x.1 = e.key)
-    (hmeta : cfg.aliasFirst = true ∨ e.ch ∉ s.ctl.vmeta) :
+    (hmeta : cfg.aliasFirst = true ∨ e.ch ∉ s.ctl.vmeta)
+    (hon : s.bal.paused = false ∧ s.bal.off.contains ETok.base = false) :
     (stepWith cfg s (.settle e.ch e.seq mode)).2.isDone ∧
     sget (stepWith cfg s (.settle e.ch e.seq mode)).1.bal.erc (e.sender, ETok.base) = sget s.bal.erc (e.sender, ETok.base) + e.amt ∧
     (∀ k, k ≠ (e.sender, ETok.base) → sget (stepWith cfg s (.settle e.ch e.seq mode)).1.bal.erc k = sget s.bal.erc k) ∧
@@ -734,7 +778,7 @@ theorem settle_refund_credits (cfg : Cfg) (hs : Sound cfg) (hE : cfg.ackErrRefun
     rcases hmeta with hmeta | hmeta
     · simp [resolve, hmeta]
     · simp [resolve, hmeta]
-  obtain ⟨b1, b', hb1, hb', hc1, hc2, hc3, _, _⟩ := refund_A_bal cfg s.ctl.vmeta s.bal e.ch p hpA hres hTo
+  obtain ⟨b1, b', hb1, hb', hc1, hc2, hc3, _, _⟩ := refund_A_bal cfg s.ctl.vmeta s.bal e.ch p hpA hres hTo hon
   have hst : settleState cfg s e.ch e.seq p mode = some { bal := b', ctl := refundCtl cfg s.ctl (e.ch, e.seq) p } := by
     cases mode with
     | ackOk => exact absurd rfl hm
@@ -777,7 +821,47 @@ theorem settle_refund_stuck (cfg : Cfg) (hs : Sound cfg) (hE : cfg.ackErrRefunds
     simp [Bal.mint, get_add]
   have hrs : refundState cfg s e.ch e.seq p true = none := by
     simp [refundState, refundApp, hpA, returning, bankDenom, refundHook, hres, toBaseCoin, Denom.isIbc, hlt, hform,
-      convertCoin, pairOf]
+      convertCoin, pairOf, hs.errPropagates]
+  have hst : settleState cfg s e.ch e.seq p mode = none := by
+    cases mode with
+    | ackOk => exact absurd rfl hm
+    | ackErr => simp [settleState, hE, hrs]
+    | timeout => simp [settleState, hT, hrs]
+  simp [stepWith, settle, hl, hst]
+
+/-- while the conversion of the aliased token's pair is toggled off (or the erc20 module is disabled) the refund callback
+of an in-flight EVM-originated transfer fails: the relayer's transaction is rolled back, the packet stays committed and
+can be retried -/
+theorem settle_refund_disabled (cfg : Cfg) (hs : Sound cfg) (hE : cfg.ackErrRefunds = true) (hT : cfg.timeoutRefunds = true)
+    (s : State) (e : SentRec) (mode : Mode) (hm : mode ≠ .ackOk) (h : Inv s.ctl)
+    (he : e ∈ s.ctl.evmSent) (hB : e.tok = .A) (hc : ∃ x ∈ s.ctl.commits, x.1 = e.key)
+    (hmeta : cfg.aliasFirst = true ∨ e.ch ∉ s.ctl.vmeta)
+    (hoff : s.bal.paused = true ∨ s.bal.off.contains ETok.base = true) :
+    stepWith cfg s (.settle e.ch e.seq mode) = (s, .stuck s.ctl.rel) := by
+  obtain ⟨x, hx, hxk⟩ := hc
+  obtain ⟨p, hl⟩ : ∃ p, lookup (e.ch, e.seq) s.ctl.commits = some p := by
+    cases hl : lookup (e.ch, e.seq) s.ctl.commits with
+    | none => exact absurd hxk (lookup_none_not_mem hl x hx)
+    | some p => exact ⟨p, rfl⟩
+  obtain ⟨_, hp2, _, _⟩ := h.eData e he _ (lookup_mem hl) rfl
+  simp only at hp2
+  have hpA : p.tok = .A := by rw [hp2, hB]
+  have hin : (e.ch, e.seq) ∈ s.ctl.rel := h.eRel e he hB ⟨x, hx, hxk⟩
+  have hfound := refundFound_src cfg hs.refundSees hs.refundChan hs.refundSeq hs.deleteReports s.ctl (e.ch, e.seq) p
+  have hform : refundForm cfg s.ctl (e.ch, e.seq) p = true := by
+    simp [refundForm, hfound, hin, hs.refundConverts]
+  have hres : resolve cfg s.ctl.vmeta false (.vA e.ch) = .base := by
+    rcases hmeta with hmeta | hmeta <;> simp [resolve, hmeta]
+  have hlt : ¬ sget (s.bal.mint p.sender (.vA e.ch) p.amt).bank (p.sender, Denom.vA e.ch) < p.amt := by
+    simp [Bal.mint, get_add]
+  have hoff' : ((s.bal.mint p.sender (.vA e.ch) p.amt).paused || (s.bal.mint p.sender (.vA e.ch) p.amt).off.contains ETok.base) = true := by
+    show (s.bal.paused || s.bal.off.contains ETok.base) = true
+    rcases hoff with h1 | h1
+    · rw [h1]; rfl
+    · rw [h1]; exact Bool.or_true _
+  have hrs : refundState cfg s e.ch e.seq p true = none := by
+    simp only [refundState, refundApp, hpA, returning, bankDenom, Bool.false_eq_true, ↓reduceIte, refundHook, hres,
+      toBaseCoin, Denom.isIbc, Bool.not_true, hlt, hform, convertCoin, pairOf, hoff', hs.errPropagates]
   have hst : settleState cfg s e.ch e.seq p mode = none := by
     cases mode with
     | ackOk => exact absurd rfl hm
@@ -787,13 +871,22 @@ theorem settle_refund_stuck (cfg : Cfg) (hs : Sound cfg) (hE : cfg.ackErrRefunds
 
 /-! ## receive -/
 
-theorem memoStep_bal (cfg : Cfg) (b : Bal) (src dst : Ch) (m : Memo) (snd : Nat) :
-    (memoStep cfg b src dst m snd).1.bank = b.bank ∧ (memoStep cfg b src dst m snd).1.erc = b.erc := by
-  cases m <;> simp [memoStep]
+/-- `IntermediateSender` hands no address through: every memo call runs as the derived account -/
+theorem memoCaller_derived (cfg : Cfg) (hx : cfg.memoPassHex = false) (hb : cfg.memoPassBech = false) (src dst : Ch)
+    (snd : Nat) : memoCaller cfg src dst snd = .derived (cfg.memoChan.pick src dst) (if cfg.memoSender then snd else 0) := by
+  unfold memoCaller
+  cases sndOf snd <;> simp [hx, hb]
 
-theorem memoStep_ok (cfg : Cfg) (b : Bal) (src dst : Ch) (m : Memo) (snd : Nat) :
-    (memoStep cfg b src dst m snd).2 = true ↔ m ≠ .callrev := by
-  cases m <;> simp [memoStep]
+theorem memoStep_bal (cfg : Cfg) (hx : cfg.memoPassHex = false) (hb : cfg.memoPassBech = false) (b : Bal) (src dst : Ch)
+    (m : Memo) (snd : Nat) :
+    (memoStep cfg b src dst m snd).1.bank = b.bank ∧ (memoStep cfg b src dst m snd).1.erc = b.erc ∧
+    (memoStep cfg b src dst m snd).1.off = b.off ∧ (memoStep cfg b src dst m snd).1.paused = b.paused := by
+  cases m <;> simp [memoStep, memoCaller_derived cfg hx hb]
+
+theorem memoStep_ok (cfg : Cfg) (hx : cfg.memoPassHex = false) (hb : cfg.memoPassBech = false) (b : Bal) (src dst : Ch)
+    (m : Memo) (snd : Nat) :
+    (memoStep cfg b src dst m snd).2 = true ↔ m ≠ .callrev ∧ m ≠ .callpay := by
+  cases m <;> simp [memoStep, memoCaller_derived cfg hx hb]
 
 /-- what the receive needs from the configuration -/
 structure RecvOk (cfg : Cfg) : Prop where
@@ -804,6 +897,8 @@ structure RecvOk (cfg : Cfg) : Prop where
   converts : cfg.recvConverts = true
   memoAfter : cfg.recvMemoAfter = true
   retChan : cfg.recvRetChan = .src
+  noPassHex : cfg.memoPassHex = false
+  noPassBech : cfg.memoPassBech = false
 
 /-- a successful receive went through the transfer application, a successful conversion block and a non-reverting memo
 block, in this order -/
@@ -835,7 +930,7 @@ theorem recvBal_ok (cfg : Cfg) (hc : RecvOk cfg) (vmeta : List Ch) (b : Bal) (sr
           | false => simp [hm, hc.discards] at h
           | true =>
             refine ⟨b1, b2, rfl, hcv, ?_, ?_⟩
-            · exact (memoStep_ok cfg b2 src l m snd).1 (by rw [hm])
+            · exact ((memoStep_ok cfg hc.noPassHex hc.noPassBech b2 src l m snd).1 (by rw [hm])).1
             · simp [hm]
 
 theorem recvApp_pos {b b1 : Bal} {l : Ch} {t : Tok} {to : Addr} {amt : Nat} (h : recvApp b l t to amt = some b1) : 0 < amt := by
@@ -871,9 +966,11 @@ theorem convStep_hex_ok (cfg : Cfg) (hc : RecvOk cfg) (vmeta : List Ch) (b b2 : 
   | F => exact absurd rfl ht
   | N =>
     simp only [bankDenom, toBaseCoin, Denom.isIbc, Bool.not_false, ↓reduceIte, convertCoin, pairOf] at h
+    by_cases hoff : (b.paused || b.off.contains ETok.nat) = true
+    · simp only [hoff, ↓reduceIte] at h; simp at h
     by_cases hlt : sget b.bank (to, Denom.nat) < amt
-    · simp [hlt] at h
-    · simp only [hlt, ↓reduceIte, Prod.mk.injEq] at h
+    · simp only [hoff, Bool.false_eq_true, hlt, ↓reduceIte] at h; simp at h
+    · simp only [hoff, Bool.false_eq_true, hlt, ↓reduceIte, Prod.mk.injEq] at h
       obtain ⟨h, _⟩ := h
       subst h
       refine ⟨.nat, rfl, by simp, by simp, by simp, rfl, rfl, rfl, Nat.le_of_not_lt hlt, ?_, ?_, ?_⟩
@@ -898,9 +995,11 @@ theorem convStep_hex_ok (cfg : Cfg) (hc : RecvOk cfg) (vmeta : List Ch) (b b2 : 
     by_cases hlt : sget b.bank (to, Denom.vV l) < amt
     · simp [hlt] at h
     · simp only [hlt, ↓reduceIte, convertCoin, pairOf] at h
+      by_cases hoff : (b.paused || b.off.contains (ETok.v l)) = true
+      · simp only [hoff, ↓reduceIte] at h; simp at h
       have hlt2 : ¬ sget (sadd (sadd (ssub b.bank (to, Denom.vV l) amt) (transferMod, Denom.vV l) amt) (to, Denom.vV l) amt)
           (to, Denom.vV l) < amt := by simp [get_add]
-      simp only [hlt2, ↓reduceIte, Prod.mk.injEq] at h
+      simp only [hoff, Bool.false_eq_true, hlt2, ↓reduceIte, Prod.mk.injEq] at h
       obtain ⟨h, _⟩ := h
       subst h
       refine ⟨.v l, rfl, by simp, by simp, by simp, rfl, rfl, rfl, Nat.le_of_not_lt hlt, ?_, ?_, ?_⟩
@@ -925,9 +1024,11 @@ theorem convStep_hex_ok (cfg : Cfg) (hc : RecvOk cfg) (vmeta : List Ch) (b b2 : 
       | false => simp [hlt, haf, convertCoin, pairOf] at h
       | true =>
         simp only [hlt, ↓reduceIte, haf, convertCoin, pairOf] at h
+        by_cases hoff : (b.paused || b.off.contains ETok.base) = true
+        · simp only [hoff, ↓reduceIte] at h; simp at h
         have hlt2 : ¬ sget (sadd (sadd (ssub b.bank (to, Denom.vA l) amt) (transferMod, Denom.vA l) amt) (to, Denom.base) amt)
             (to, Denom.base) < amt := by simp [get_add]
-        simp only [hlt2, ↓reduceIte, Prod.mk.injEq] at h
+        simp only [hoff, Bool.false_eq_true, hlt2, ↓reduceIte, Prod.mk.injEq] at h
         obtain ⟨h, _⟩ := h
         subst h
         refine ⟨.base, rfl, by simp, by simp, by simp, rfl, rfl, rfl, Nat.le_of_not_lt hlt, ?_, ?_, ?_⟩
@@ -1001,7 +1102,7 @@ theorem recvWith_credit_or_error (cfg : Cfg) (hc : RecvOk cfg) (s : State) (l : 
     left
     obtain ⟨_, b1, b2, ha, hcv, _, hfin⟩ := recvBal_ok cfg hc _ _ _ _ _ _ _ _ _ _ hr
     obtain ⟨ae, _, _, aother, ato⟩ := recvApp_eff ha
-    obtain ⟨mb, me⟩ := memoStep_bal cfg b2 (cpOf s.ctl l) l m snd
+    obtain ⟨mb, me, _, _⟩ := memoStep_bal cfg hc.noPassHex hc.noPassBech b2 (cpOf s.ctl l) l m snd
     simp only [↓reduceIte]
     refine ⟨⟨_, _, _, _, _, _, _, rfl⟩, recvApp_pos ha, trivial, ?_⟩
     rw [hfin, mb, me]
@@ -1051,7 +1152,7 @@ theorem recvWith_memo (cfg : Cfg) (hc : RecvOk cfg) (s : State) (l : Ch) (t : To
     (((stepWith cfg s (.recv l t k to amt .callok snd)).2.isRecv true ∧
         (stepWith cfg s (.recv l t k to amt .callok snd)).1.bal.marker = s.bal.marker + 1 ∧
         (stepWith cfg s (.recv l t k to amt .callok snd)).1.bal.caller =
-          some (cfg.memoChan.pick (cpOf s.ctl l) l, if cfg.memoSender then snd else 0)) ∨
+          some (.derived (cfg.memoChan.pick (cpOf s.ctl l) l) (if cfg.memoSender then snd else 0))) ∨
       ((stepWith cfg s (.recv l t k to amt .callok snd)).2.isRecv false ∧ (stepWith cfg s (.recv l t k to amt .callok snd)).1 = s)) := by
   constructor
   · simp only [stepWith]
@@ -1090,7 +1191,43 @@ theorem recvWith_memo (cfg : Cfg) (hc : RecvOk cfg) (s : State) (l : Ch) (t : To
               have := convStep_nonhex cfg hc s.ctl.vmeta b1 l t .bad to amt hF (by simp)
               rw [hcv] at this; cases this
         rw [this, am]
-      · rw [hfin]; simp [memoStep]
+      · rw [hfin]; simp [memoStep, memoCaller_derived cfg hc.noPassHex hc.noPassBech]
+
+/-- a memo call that moves the caller's funds never succeeds when `IntermediateSender` hands no address through: it runs
+as the derived account, which holds nothing — whatever the packet's sender field names -/
+theorem recvWith_memo_pay (cfg : Cfg) (hc : RecvOk cfg) (s : State) (l : Ch) (t : Tok) (k : RKind) (to : Addr) (amt : Nat)
+    (snd : Nat) :
+    (stepWith cfg s (.recv l t k to amt .callpay snd)).2.isRecv false ∧ (stepWith cfg s (.recv l t k to amt .callpay snd)).1 = s := by
+  simp only [stepWith]
+  cases hr : (recvBal cfg s.ctl.vmeta s.bal (cpOf s.ctl l) l t k to amt .callpay snd).2 with
+  | false =>
+    simp only [Bool.false_eq_true, ↓reduceIte, and_true]
+    exact ⟨_, _, _, _, _, _, _, rfl⟩
+  | true =>
+    exfalso
+    obtain ⟨_, b1, b2, _, hcv, _, _⟩ := recvBal_ok cfg hc _ _ _ _ _ _ _ _ _ _ hr
+    -- recvBal_ok only names callrev; redo the last step for callpay
+    unfold recvBal at hr
+    by_cases hk : k = .bad
+    · simp [hk] at hr
+    simp only [hk, ↓reduceIte] at hr
+    cases ha : recvApp s.bal l t to amt with
+    | none => simp [ha] at hr
+    | some b1' =>
+      have hret : (returning t && !(cfg.recvRetChan.pick (cpOf s.ctl l) l == some (cpOf s.ctl l))) = false := by
+        simp [hc.retChan, ChanSel.pick]
+      simp only [ha, hc.order, Bool.not_true, Bool.false_eq_true, ↓reduceIte, recvHook, hret, hc.memoAfter] at hr
+      cases hcv' : convStep cfg s.ctl.vmeta b1' l t k to amt with
+      | mk b2' ok =>
+        cases ok with
+        | false => simp [hcv', hc.discards] at hr
+        | true =>
+          have hm := (memoStep_ok cfg hc.noPassHex hc.noPassBech b2' (cpOf s.ctl l) l .callpay snd)
+          cases hms : memoStep cfg b2' (cpOf s.ctl l) l .callpay snd with
+          | mk b3 ok3 =>
+            cases ok3 with
+            | true => rw [hms] at hm; exact absurd rfl (hm.1 rfl).2
+            | false => simp [hcv', hms, hc.discards] at hr
 
 /-! ## life cycle of records and EVM-originated transfers -/
 
@@ -1210,19 +1347,13 @@ theorem life_settleState (cfg : Cfg) (hR : Removes cfg) (s s' : State) (l : Ch) 
     cases mode with
     | ackOk => simp only [settleState, Option.some.injEq] at hr; subst hr; rfl
     | ackErr =>
-      simp only [settleState, hR.ackErrRefunds, refundState] at hr
-      split at hr
-      · cases hr
-      · simp only [↓reduceIte] at hr; split at hr
-        · cases hr
-        · cases hr; rfl
+      simp only [settleState, hR.ackErrRefunds] at hr
+      obtain ⟨_, _, _, _, hs'⟩ := refundState_true cfg hR.errPropagates s s' l seq p hr
+      subst hs'; rfl
     | timeout =>
-      simp only [settleState, hR.timeoutRefunds, refundState] at hr
-      split at hr
-      · cases hr
-      · simp only [↓reduceIte] at hr; split at hr
-        · cases hr
-        · cases hr; rfl
+      simp only [settleState, hR.timeoutRefunds] at hr
+      obtain ⟨_, _, _, _, hs'⟩ := refundState_true cfg hR.errPropagates s s' l seq p hr
+      subst hs'; rfl
   -- the settled key is logged as acknowledged or refunded; both logs only grow
   have hlog : ((l, seq) ∈ s'.ctl.ackedOk ∨ ∃ r ∈ s'.ctl.refundLog, r.key = (l, seq)) ∧
       (∀ k ∈ s.ctl.ackedOk, k ∈ s'.ctl.ackedOk) ∧ (∀ r ∈ s.ctl.refundLog, r ∈ s'.ctl.refundLog) := by
@@ -1231,21 +1362,15 @@ theorem life_settleState (cfg : Cfg) (hR : Removes cfg) (s s' : State) (l : Ch) 
       simp only [settleState, Option.some.injEq] at hr; subst hr
       exact ⟨Or.inl List.mem_cons_self, fun k hk => List.mem_cons_of_mem _ hk, fun r hr => hr⟩
     | ackErr =>
-      simp only [settleState, hR.ackErrRefunds, refundState] at hr
-      split at hr
-      · cases hr
-      · simp only [↓reduceIte] at hr; split at hr
-        · cases hr
-        · cases hr
-          exact ⟨Or.inr ⟨_, List.mem_cons_self, rfl⟩, fun k hk => hk, fun r hr => List.mem_cons_of_mem _ hr⟩
+      simp only [settleState, hR.ackErrRefunds] at hr
+      obtain ⟨_, _, _, _, hs'⟩ := refundState_true cfg hR.errPropagates s s' l seq p hr
+      subst hs'
+      exact ⟨Or.inr ⟨_, List.mem_cons_self, rfl⟩, fun k hk => hk, fun r hr => List.mem_cons_of_mem _ hr⟩
     | timeout =>
-      simp only [settleState, hR.timeoutRefunds, refundState] at hr
-      split at hr
-      · cases hr
-      · simp only [↓reduceIte] at hr; split at hr
-        · cases hr
-        · cases hr
-          exact ⟨Or.inr ⟨_, List.mem_cons_self, rfl⟩, fun k hk => hk, fun r hr => List.mem_cons_of_mem _ hr⟩
+      simp only [settleState, hR.timeoutRefunds] at hr
+      obtain ⟨_, _, _, _, hs'⟩ := refundState_true cfg hR.errPropagates s s' l seq p hr
+      subst hs'
+      exact ⟨Or.inr ⟨_, List.mem_cons_self, rfl⟩, fun k hk => hk, fun r hr => List.mem_cons_of_mem _ hr⟩
   constructor
   · intro k hk
     rw [hrel] at hk
@@ -1280,6 +1405,8 @@ theorem life_step (cfg : Cfg) (hR : Removes cfg) (s : State) (op : Op) (hi : Inv
   | chan l r => exact ⟨h.relC, h.eLife, h.cE, h.cC, h.cU⟩
   | vmeta l => exact ⟨h.relC, h.eLife, h.cE, h.cC, h.cU⟩
   | migrate => exact ⟨h.relC, h.eLife, h.cE, h.cC, h.cU⟩
+  | toggle t l => simp only [stepWith]; split <;> exact h
+  | pause => exact h
   | seqset l n =>
     simp only [stepWith]
     split
@@ -1413,6 +1540,7 @@ theorem runWith_append (cfg : Cfg) (s : State) (a b : List Op) :
 theorem send_refund_roundtrip (cfg : Cfg) (hs : Sound cfg) (hE : cfg.ackErrRefunds = true) (hT : cfg.timeoutRefunds = true)
     (hTo : cfg.refundToSender = true) (s : State) (h : Inv s.ctl) (l : Ch) (a : Addr) (amt : Nat) (mode : Mode)
     (hm : mode ≠ .ackOk) (hmeta : cfg.aliasFirst = true ∨ l ∉ s.ctl.vmeta)
+    (hon : s.bal.paused = false ∧ s.bal.off.contains ETok.base = false)
     (hok : (stepWith cfg s (.send l a .A amt)).2 ≠ .fail) :
     (stepWith cfg (stepWith cfg s (.send l a .A amt)).1 (.settle l (nextSeq s.ctl l) mode)).2.isDone ∧
     (∀ k, sget (stepWith cfg (stepWith cfg s (.send l a .A amt)).1 (.settle l (nextSeq s.ctl l) mode)).1.bal.erc k =
@@ -1447,7 +1575,10 @@ theorem send_refund_roundtrip (cfg : Cfg) (hs : Sound cfg) (hE : cfg.ackErrRefun
     have he : e ∈ s1.ctl.evmSent := by simp [s1, e, sendCtl]
     have hc : ∃ x ∈ s1.ctl.commits, x.1 = e.key := ⟨_, by simp only [s1, sendCtl]; exact List.mem_cons_self, rfl⟩
     have hvm : cfg.aliasFirst = true ∨ e.ch ∉ s1.ctl.vmeta := by simpa [s1, e, sendCtl] using hmeta
-    obtain ⟨c1, c2, c3, c4, _, c6⟩ := settle_refund_credits cfg hs hE hT hTo s1 e mode hm hinv1 he rfl hc hvm
+    have hon1 : s1.bal.paused = false ∧ s1.bal.off.contains ETok.base = false := by
+      show b.paused = false ∧ b.off.contains ETok.base = false
+      rw [hguard.2]; exact hon
+    obtain ⟨c1, c2, c3, c4, _, c6⟩ := settle_refund_credits cfg hs hE hT hTo s1 e mode hm hinv1 he rfl hc hvm hon1
     simp only [stepWith] at c1 c2 c3 c4 c6
     refine ⟨c1, ?_, ?_, ?_⟩
     · intro k
